@@ -33,6 +33,8 @@ package parsers
 // a classified token: a valid variant value; variables (and calls) carry their name, never empty, as a string
 //@ pred tokOK(t *ExpressionToken) = t != nil && t.value != nil && vinv(t.value) &&
 //@     (t.typ == Variable ==> t.value.typ == variants.String && t.value.value.(string) != "") && t.typ != Function && t.typ != Unary
+// the names collected for the automatic variables are never empty (a variable cannot be created with an empty name)
+//@ pred namesOK(c *ExpressionParser) = forall j int :: 0 <= j && j < len(c.variableNames) ==> c.variableNames[j] != ""
 //@ pred idxInv(c *ExpressionParser) = c != nil && 0 <= c.currentTokenIndex && c.currentTokenIndex <= len(c.initialTokens) &&
 //@     (arr(c.resultTokens) != arr(c.initialTokens) || arr(c.resultTokens) == 0)
 //@ pred parserInv(c *ExpressionParser) = idxInv(c) && (forall i int :: 0 <= i && i < len(c.initialTokens) ==> tokOK(c.initialTokens[i]))
@@ -263,8 +265,10 @@ package parsers
 //@   requires parserInv(c)
 //@   requires resDepth(c) >= 0
 //@   requires resOK(c)
+//@   requires namesOK(c)
 //@   ensures[C03] resDepth(c) >= 0 && (result == nil ==> resDepth(c) == old(resDepth(c)) + 1)
 //@   ensures[C03] resOK(c)
+//@   ensures[C18,C03] namesOK(c)
 //@   opaque rpnDepth, resOKn
 //@   ensures[C02,C01] (result == nil) == (E0(toks(c), tys(), old(c.currentTokenIndex)) >= 0)
 //@   ensures[C02] result == nil ==> c.currentTokenIndex == E0(toks(c), tys(), old(c.currentTokenIndex))
@@ -278,15 +282,17 @@ package parsers
 //@   loop 0
 //@     invariant idxInv(c) && sameTokens(c) && c.currentTokenIndex > old(c.currentTokenIndex)
 //@     invariant E0(toks(c), tys(), old(c.currentTokenIndex)) == R0(toks(c), tys(), c.currentTokenIndex)
-//@     invariant resDepth(c) == old(resDepth(c)) + 1 && resOK(c)
+//@     invariant resDepth(c) == old(resDepth(c)) + 1 && resOK(c) && namesOK(c)
 //@     decreases len(c.initialTokens) - c.currentTokenIndex
 //
 //@ func (c *ExpressionParser) performSyntaxAnalysisAtLevel1
 //@   requires parserInv(c)
 //@   requires resDepth(c) >= 0
 //@   requires resOK(c)
+//@   requires namesOK(c)
 //@   ensures[C03] resDepth(c) >= 0 && (result == nil ==> resDepth(c) == old(resDepth(c)) + 1)
 //@   ensures[C03] resOK(c)
+//@   ensures[C18,C03] namesOK(c)
 //@   opaque rpnDepth, resOKn
 //@   ensures[C02,C01] (result == nil) == (E1(toks(c), tys(), old(c.currentTokenIndex)) >= 0)
 //@   ensures[C02] result == nil ==> c.currentTokenIndex == E1(toks(c), tys(), old(c.currentTokenIndex))
@@ -302,8 +308,10 @@ package parsers
 //@   requires parserInv(c)
 //@   requires resDepth(c) >= 0
 //@   requires resOK(c)
+//@   requires namesOK(c)
 //@   ensures[C03] resDepth(c) >= 0 && (result == nil ==> resDepth(c) == old(resDepth(c)) + 1)
 //@   ensures[C03] resOK(c)
+//@   ensures[C18,C03] namesOK(c)
 //@   opaque rpnDepth, resOKn
 //@   ensures[C02,C01] (result == nil) == (E2(toks(c), tys(), old(c.currentTokenIndex)) >= 0)
 //@   ensures[C02] result == nil ==> c.currentTokenIndex == E2(toks(c), tys(), old(c.currentTokenIndex))
@@ -317,15 +325,17 @@ package parsers
 //@   loop 0
 //@     invariant idxInv(c) && sameTokens(c) && c.currentTokenIndex > old(c.currentTokenIndex)
 //@     invariant E2(toks(c), tys(), old(c.currentTokenIndex)) == R2(toks(c), tys(), c.currentTokenIndex)
-//@     invariant resDepth(c) == old(resDepth(c)) + 1 && resOK(c)
+//@     invariant resDepth(c) == old(resDepth(c)) + 1 && resOK(c) && namesOK(c)
 //@     decreases len(c.initialTokens) - c.currentTokenIndex
 //
 //@ func (c *ExpressionParser) performSyntaxAnalysisAtLevel3
 //@   requires parserInv(c)
 //@   requires resDepth(c) >= 0
 //@   requires resOK(c)
+//@   requires namesOK(c)
 //@   ensures[C03] resDepth(c) >= 0 && (result == nil ==> resDepth(c) == old(resDepth(c)) + 1)
 //@   ensures[C03] resOK(c)
+//@   ensures[C18,C03] namesOK(c)
 //@   opaque rpnDepth, resOKn
 //@   ensures[C02,C01] (result == nil) == (E3(toks(c), tys(), old(c.currentTokenIndex)) >= 0)
 //@   ensures[C02] result == nil ==> c.currentTokenIndex == E3(toks(c), tys(), old(c.currentTokenIndex))
@@ -339,15 +349,17 @@ package parsers
 //@   loop 0
 //@     invariant idxInv(c) && sameTokens(c) && c.currentTokenIndex > old(c.currentTokenIndex)
 //@     invariant E3(toks(c), tys(), old(c.currentTokenIndex)) == R3(toks(c), tys(), c.currentTokenIndex)
-//@     invariant resDepth(c) == old(resDepth(c)) + 1 && resOK(c)
+//@     invariant resDepth(c) == old(resDepth(c)) + 1 && resOK(c) && namesOK(c)
 //@     decreases len(c.initialTokens) - c.currentTokenIndex
 //
 //@ func (c *ExpressionParser) performSyntaxAnalysisAtLevel4
 //@   requires parserInv(c)
 //@   requires resDepth(c) >= 0
 //@   requires resOK(c)
+//@   requires namesOK(c)
 //@   ensures[C03] resDepth(c) >= 0 && (result == nil ==> resDepth(c) == old(resDepth(c)) + 1)
 //@   ensures[C03] resOK(c)
+//@   ensures[C18,C03] namesOK(c)
 //@   opaque rpnDepth, resOKn
 //@   ensures[C02,C01] (result == nil) == (E4(toks(c), tys(), old(c.currentTokenIndex)) >= 0)
 //@   ensures[C02] result == nil ==> c.currentTokenIndex == E4(toks(c), tys(), old(c.currentTokenIndex))
@@ -361,15 +373,17 @@ package parsers
 //@   loop 0
 //@     invariant idxInv(c) && sameTokens(c) && c.currentTokenIndex > old(c.currentTokenIndex)
 //@     invariant E4(toks(c), tys(), old(c.currentTokenIndex)) == R4(toks(c), tys(), c.currentTokenIndex)
-//@     invariant resDepth(c) == old(resDepth(c)) + 1 && resOK(c)
+//@     invariant resDepth(c) == old(resDepth(c)) + 1 && resOK(c) && namesOK(c)
 //@     decreases len(c.initialTokens) - c.currentTokenIndex
 //
 //@ func (c *ExpressionParser) performSyntaxAnalysisAtLevel5
 //@   requires parserInv(c)
 //@   requires resDepth(c) >= 0
 //@   requires resOK(c)
+//@   requires namesOK(c)
 //@   ensures[C03] resDepth(c) >= 0 && (result == nil ==> resDepth(c) == old(resDepth(c)) + 1)
 //@   ensures[C03] resOK(c)
+//@   ensures[C18,C03] namesOK(c)
 //@   opaque rpnDepth, resOKn
 //@   ensures[C02,C01] (result == nil) == (E5(toks(c), tys(), old(c.currentTokenIndex)) >= 0)
 //@   ensures[C02] result == nil ==> c.currentTokenIndex == E5(toks(c), tys(), old(c.currentTokenIndex))
@@ -383,15 +397,17 @@ package parsers
 //@   loop 0
 //@     invariant idxInv(c) && sameTokens(c) && c.currentTokenIndex > old(c.currentTokenIndex)
 //@     invariant E5(toks(c), tys(), old(c.currentTokenIndex)) == R5(toks(c), tys(), c.currentTokenIndex)
-//@     invariant resDepth(c) == old(resDepth(c)) + 1 && resOK(c)
+//@     invariant resDepth(c) == old(resDepth(c)) + 1 && resOK(c) && namesOK(c)
 //@     decreases len(c.initialTokens) - c.currentTokenIndex
 //
 //@ func (c *ExpressionParser) performSyntaxAnalysisAtLevel6
 //@   requires parserInv(c)
 //@   requires resDepth(c) >= 0
 //@   requires resOK(c)
+//@   requires namesOK(c)
 //@   ensures[C03] resDepth(c) >= 0 && (result == nil ==> resDepth(c) == old(resDepth(c)) + 1)
 //@   ensures[C03] resOK(c)
+//@   ensures[C18,C03] namesOK(c)
 //@   opaque rpnDepth, resOKn
 //@   ensures[C02,C01,slow] (result == nil) == (E6(toks(c), tys(), old(c.currentTokenIndex)) >= 0)
 //@   ensures[C02,slow] result == nil ==> c.currentTokenIndex == E6(toks(c), tys(), old(c.currentTokenIndex))
@@ -406,14 +422,16 @@ package parsers
 //@       afterSign(toks(c), tys(), old(c.currentTokenIndex)) < len(c.initialTokens) && old(c.currentTokenIndex) < len(c.initialTokens) &&
 //@       idxInv(c) && sameTokens(c) && c.currentTokenIndex > old(c.currentTokenIndex)
 //@   callsite[C02] addTokenToResult requires typ != Element || (c.currentTokenIndex >= 1 && c.initialTokens[c.currentTokenIndex - 1].typ == RightSquareBrace)
+//@   callsite[C18] addTokenToResult requires namesOK(c)
+//@   callsite[C18] hasMoreTokens requires namesOK(c)
 //@   loop 0
 //@     invariant -1 <= rangeindex && rangeindex < len(c.variableNames) && idxInv(c) && sameTokens(c) && c.currentTokenIndex > old(c.currentTokenIndex)
-//@     invariant resDepth(c) == old(resDepth(c)) && resOK(c)
+//@     invariant resDepth(c) == old(resDepth(c)) && resOK(c) && namesOK(c)
 //@     decreases len(c.variableNames) - rangeindex
 //@   loop 1
 //@     invariant idxInv(c) && sameTokens(c) && c.currentTokenIndex > old(c.currentTokenIndex) && paramCount >= 0 && paramCount <= c.currentTokenIndex
 //@     invariant c.currentTokenIndex < len(c.initialTokens)
-//@     invariant resDepth(c) == old(resDepth(c)) + paramCount && resOK(c)
+//@     invariant resDepth(c) == old(resDepth(c)) + paramCount && resOK(c) && namesOK(c)
 //@     invariant PRIM(toks(c), tys(), afterSign(toks(c), tys(), old(c.currentTokenIndex))) == ARGS(toks(c), tys(), c.currentTokenIndex + 1, paramCount > 0 ? 1 : 0)
 //@     invariant afterSign(toks(c), tys(), old(c.currentTokenIndex)) < len(c.initialTokens) && tk(toks(c), tys(), afterSign(toks(c), tys(), old(c.currentTokenIndex))) == Variable && tk(toks(c), tys(), afterSign(toks(c), tys(), old(c.currentTokenIndex)) + 1) == LeftBrace
 //@     decreases len(c.initialTokens) - c.currentTokenIndex
@@ -424,7 +442,7 @@ package parsers
 //@ func (c *ExpressionParser) Clear
 //@   requires c != nil
 //@   ensures[C03,C05] len(c.originalTokens) == 0 && len(c.initialTokens) == 0 && len(c.resultTokens) == 0 && len(c.variableNames) == 0 && c.currentTokenIndex == 0 && c.expression == ""
-//@   ensures[C03] fresh(c.initialTokens) && fresh(c.resultTokens) && arr(c.resultTokens) != arr(c.initialTokens) && pOK(c)
+//@   ensures[C03] fresh(c.initialTokens) && fresh(c.resultTokens) && fresh(c.variableNames) && arr(c.resultTokens) != arr(c.initialTokens) && pOK(c)
 //@   assigns c.expression, c.originalTokens, c.initialTokens, c.resultTokens, c.currentTokenIndex, c.variableNames
 //@   nopanic
 // the operator table: as many types as spellings, none of them a type that only the syntax analysis creates
@@ -467,8 +485,9 @@ package parsers
 //@   requires arr(c.initialTokens) != arr(operatorTypes) && arr(c.initialTokens) != arr(c.originalTokens) &&
 //@       (forall i int :: 0 <= i && i < len(c.originalTokens) ==> c.originalTokens[i] != nil && allocated(c.originalTokens[i]))
 //@   requires pOK(c) && c.currentTokenIndex == 0 && len(c.resultTokens) == 0 && len(c.initialTokens) == 0 &&
-//@       arr(c.resultTokens) != arr(c.initialTokens)
+//@       arr(c.resultTokens) != arr(c.initialTokens) && namesOK(c)
 //@   ensures[C03] pOK(c)
+//@   ensures[C18,C03] namesOK(c)
 // "every other non-empty token sequence is rejected": success means the classified tokens, all of them, are one sentence of the grammar
 //@   ensures[C02] result == nil && len(c.originalTokens) > 0 ==> E0(toks(c), tys(), 0) == len(c.initialTokens) && c.currentTokenIndex == len(c.initialTokens)
 //@   assigns c.currentTokenIndex, c.initialTokens, c.initialTokens[*], c.resultTokens, c.resultTokens[*], c.variableNames, c.variableNames[*]
@@ -487,15 +506,52 @@ package parsers
 //@   globals
 //@   requires c != nil && c.tokenizer != nil
 //@   ensures[C03] pOK(c)
+//@   ensures[C18,C03] namesOK(c)
 //@   ensures[C02] result == nil && len(c.originalTokens) > 0 ==> E0(toks(c), tys(), 0) == len(c.initialTokens) && c.currentTokenIndex == len(c.initialTokens)
+//@   assigns c.expression, c.originalTokens, c.initialTokens, c.initialTokens[*], c.resultTokens, c.resultTokens[*], c.currentTokenIndex, c.variableNames, c.variableNames[*],
+//@       any(tokenizers.AbstractTokenizer).Scanner, any(tokenizers.AbstractTokenizer).ReaderVersion, any(tokenizers.AbstractTokenizer).NextTokenValue, any(tokenizers.AbstractTokenizer).LastTokenType,
+//@       any(tokenizers.AbstractTokenizer).skipWhitespaces, any(tokenizers.AbstractTokenizer).skipComments, any(tokenizers.AbstractTokenizer).skipEof,
+//@       any(tokenizers.AbstractTokenizer).decodeStrings, any(tokenizers.MustacheTokenizer).special, any(tokenizers.MustacheTokenizer).lastVersion, any(tokenizers.MustacheTokenizer).tagStart, any(tokenizers.MustacheTokenizer).comment
 //@   nopanic
 //@ func (c *ExpressionParser) SetExpression
 //@   tags C03
 //@   globals
 //@   requires c != nil && c.tokenizer != nil
 //@   ensures[C03] pOK(c)
+//@   ensures[C18,C03] namesOK(c)
 //@   ensures[C02] result == nil && len(c.originalTokens) > 0 ==> E0(toks(c), tys(), 0) == len(c.initialTokens) && c.currentTokenIndex == len(c.initialTokens)
+//@   assigns c.expression, c.originalTokens, c.initialTokens, c.initialTokens[*], c.resultTokens, c.resultTokens[*], c.currentTokenIndex, c.variableNames, c.variableNames[*],
+//@       any(tokenizers.AbstractTokenizer).Scanner, any(tokenizers.AbstractTokenizer).ReaderVersion, any(tokenizers.AbstractTokenizer).NextTokenValue, any(tokenizers.AbstractTokenizer).LastTokenType,
+//@       any(tokenizers.AbstractTokenizer).skipWhitespaces, any(tokenizers.AbstractTokenizer).skipComments, any(tokenizers.AbstractTokenizer).skipEof,
+//@       any(tokenizers.AbstractTokenizer).decodeStrings, any(tokenizers.MustacheTokenizer).special, any(tokenizers.MustacheTokenizer).lastVersion, any(tokenizers.MustacheTokenizer).tagStart, any(tokenizers.MustacheTokenizer).comment
+//@   nopanic
+// the same for a token list handed over by the caller
+//@ func (c *ExpressionParser) composeExpression
+//@   requires forall i int :: 0 <= i && i < len(tokens) ==> tokens[i] != nil
+//@   assigns nothing
+//@   nopanic
+//@   loop 0
+//@     invariant -1 <= rangeindex && rangeindex < len(tokens)
+//@     decreases len(tokens) - rangeindex
+//@ func (c *ExpressionParser) ParseTokens
+//@   tags C03
+//@   globals
+//@   requires c != nil && (forall i int :: 0 <= i && i < len(tokens) ==> tokens[i] != nil && allocated(tokens[i]))
+//@   ensures[C03] pOK(c)
+//@   ensures[C18,C03] namesOK(c)
+//@   ensures[C02] result == nil && len(c.originalTokens) > 0 ==> E0(toks(c), tys(), 0) == len(c.initialTokens) && c.currentTokenIndex == len(c.initialTokens)
+//@   assigns c.expression, c.originalTokens, c.initialTokens, c.initialTokens[*], c.resultTokens, c.resultTokens[*], c.currentTokenIndex, c.variableNames, c.variableNames[*]
+//@   nopanic
+//@ func (c *ExpressionParser) SetOriginalTokens
+//@   tags C03
+//@   globals
+//@   requires c != nil && (forall i int :: 0 <= i && i < len(value) ==> value[i] != nil && allocated(value[i]))
+//@   ensures[C03] pOK(c)
+//@   ensures[C18,C03] namesOK(c)
+//@   assigns c.expression, c.originalTokens, c.initialTokens, c.initialTokens[*], c.resultTokens, c.resultTokens[*], c.currentTokenIndex, c.variableNames, c.variableNames[*]
 //@   nopanic
 //@ func NewExpressionParser
 //@   ensures[C03] fresh(result) && result.tokenizer != nil && pOK(result)
+//@   ensures[C18] namesOK(result)
+//@   assigns nothing
 //@   nopanic
